@@ -36,8 +36,18 @@ def _reference(I, base, rem, d, w, a):
 HINT = {'amount': 10 ** 6, 'duration': 86400 * 30, 'base_penalty_atomics': 10 ** 17, 'now': 1000, 'expiring_at': 1000 + 86400 * 10, 'now2': 2000}
 
 
+PROBES = [
+    {'amount': 1000, 'duration': YEAR, 'base_penalty_atomics': 10 ** 17, 'now': 10 ** 6, 'expiring_at': 10 ** 6 + 3 * (YEAR // 4), 'now2': 10 ** 6 + 100},
+    {'amount': 10 ** 9, 'duration': YEAR, 'base_penalty_atomics': 5 * 10 ** 17, 'now': 10 ** 6, 'expiring_at': 10 ** 6 + YEAR // 2, 'now2': 10 ** 6 + DAY},
+    {'amount': 7, 'duration': DAY, 'base_penalty_atomics': E18, 'now': 10 ** 6, 'expiring_at': 10 ** 6 + DAY // 3, 'now2': 10 ** 6 + 7},
+    {'amount': 10 ** 12, 'duration': 200 * DAY, 'base_penalty_atomics': 2 * 10 ** 17, 'now': 10 ** 6, 'expiring_at': 10 ** 6 + 150 * DAY, 'now2': 10 ** 6 + 50 * DAY},
+    {'amount': 1, 'duration': YEAR, 'base_penalty_atomics': 9 * 10 ** 17, 'now': 5, 'expiring_at': 5 + YEAR, 'now2': 6},
+]
+
+
 def _setup(I, closed, suffix=''):
     I.set_hint(HINT)
+    I.set_probes(PROBES)
     a = I.sym('amount' + suffix, lo=1, hi=U128)
     d = I.sym('duration' + suffix, lo=DAY, hi=YEAR)
     base = I.sym('base_penalty_atomics' + suffix, lo=0, hi=E18)
@@ -136,9 +146,42 @@ HINT_S = {'amount': 10 ** 9, 'duration': DAY * 30, 'now_s': 20 * 86400 + 5, 'exp
           'user_w': 10 ** 10, 'total_w': 10 ** 11}
 
 
+PROBES_S = [
+    {'amount': 1000, 'duration': YEAR, 'base_penalty_atomics': 10 ** 17, 'now_s': 20 * DAY + 5, 'expiring_at': 20 * DAY + 5 + 3 * (YEAR // 4), 'epoch': 20,
+     'fm_lp_balance': 10 ** 6, 'is_closed': True, 'user_w': 16000, 'total_w': 10 ** 6, 'f1_funded': 10 ** 6, 'f1_claimed': 0, 'f2_funded': 10 ** 6, 'f2_claimed': 0},
+    {'amount': 10 ** 9, 'duration': YEAR, 'base_penalty_atomics': 5 * 10 ** 17, 'now_s': 20 * DAY + 5, 'expiring_at': 20 * DAY + YEAR // 2, 'epoch': 20,
+     'fm_lp_balance': 10 ** 10, 'is_closed': True, 'user_w': 10 ** 10, 'total_w': 10 ** 11, 'f1_funded': 10 ** 6, 'f1_claimed': 0, 'f2_funded': 10 ** 6, 'f2_claimed': 0},
+]
+
+
+def _replay_emergency(n_farms, owners):
+    def build(m):
+        ch = m['_choices']
+        ep, now = m['epoch'], m['now_s']
+        exp = m.get('expiring_at') if m.get('is_closed') else None
+        farms = []
+        for k in range(n_farms):
+            kind = ['active', 'future', 'expired'][ch['farm%d_kind' % k]]
+            funded, claimed = m['f%d_funded' % (k + 1)], m['f%d_claimed' % (k + 1)]
+            if kind == 'active':
+                start, end = ep - 1, ep + 5
+            elif kind == 'future':
+                start, end = ep + 1, ep + 5
+            else:
+                start, end = 1, 3
+            farms.append(('f%d' % k, owners[k], LP1, 'uusd', funded, claimed, 1, start, end))
+        return {'now_s': now, 'positions': [('u-a', LP1, m['amount'], m['duration'], 'alice', exp)], 'farms': farms,
+                'weights': [('farm_manager', LP1, ep, m['total_w']), ('alice', LP1, ep, m['user_w'])],
+                'mints': [('farm_manager', [(LP1, m['fm_lp_balance'])])],
+                'config': {'emergency_unlock_penalty_atomics': str(m['base_penalty_atomics'])},
+                'txs': [('alice', {'manage_position': {'action': {'withdraw': {'identifier': 'u-a', 'emergency_unlock': True}}}}, [])]}
+    return fm_replay(build)
+
+
 def _ob_emergency(n_farms, owners):
     def s(I):
         I.set_hint(HINT_S)
+        I.set_probes(PROBES_S)
         base = I.sym('base_penalty_atomics', hi=E18)
         fm_config(I, penalty=base)
         now = I.sym('now_s', hi=U64 // NS - 2 * YEAR)
@@ -181,6 +224,9 @@ def _ob_emergency(n_farms, owners):
         pre = b.snapshot()
         st, resp = ch.execute('alice', FM, manage_position('Withdraw', identifier='u-a', emergency_unlock=Some(True)), [])
         unlocked = (exp <= now) if closed else False
+        I.observe('status', 'ok' if st == 'ok' else 'err')
+        observe_position(I, 'u-a')
+        observe_balances(I, b, [('alice', LP1), (FC, LP1), (FM, LP1)] + [(o, LP1) for o in sorted(set(owners))])
         if st != 'ok':
             I.outcome('rejected')
             return
@@ -194,10 +240,13 @@ def _ob_emergency(n_farms, owners):
         I.check('never_pays_out_more_than_recorded', total_out <= amt)
         I.check('owner_keeps_at_least_10_percent', paid_owner * 10 >= amt)
         # penalty = floor(amount * p) with p from the kernel (K1/K2): recompute through the same kernel
-        pst, pr = _penalty(I, kpos(I, amt, dur, NONE() if not closed else Some(exp)), base, now)
+        # penalty rate from the reference formula (K1/K2), with the weight multiplier taken from calculate_weight (C10)
+        wst, wr = I.try_call('calculate_weight', [Ref([coin_v(LP1, amt)], 0), dur], CR)
         I.check('unlocked_position_pays_no_penalty', smt.Implies(unlocked, smt.Eq(paid_owner, amt)))
-        if pst == 'ok' and is_ok(pr) and not (closed and I.fork(unlocked)):
-            pen = I.ctx.fdiv(simp(amt * pr.f[0]), E18)
+        if wst == 'ok' and is_ok(wr) and not (closed and I.fork(unlocked)):
+            rem = simp(exp - now) if closed else dur
+            rate_ref = _reference(I, base, rem, dur, wr.f[0], amt)
+            pen = I.ctx.fdiv(simp(amt * rate_ref), E18)
             I.check('owner_gets_amount_minus_penalty', smt.Eq(paid_owner + (paid_farm_owners_sum(I, b, pre, act_owners, 'alice')), amt - pen)
                     if 'alice' in act_owners else smt.Eq(paid_owner, amt - pen))
             half = I.ctx.fdiv(pen, 2)
@@ -230,4 +279,4 @@ for _n, _own in ((0, ()), (1, ('carol',)), (2, ('carol', 'dave')), (2, ('carol',
                          'fee collector gets penalty - floor(penalty/2) and each distinct owner of an ACTIVE farm floor(floor(penalty/2)/n) '
                          '(all to the fee collector when there is none or the share rounds to 0); future/expired farms get nothing; position deleted',
                bounds='amount [1,2^128/17), base penalty [0,100%%], %d farms each active/future/expired, times symbolic' % _n,
-               covers=['ok'], tier='quick' if _n < 2 else 'thorough')(_ob_emergency(_n, _own))
+               covers=['ok'], tier='quick' if _n < 2 else 'thorough', replay=_replay_emergency(_n, _own))(_ob_emergency(_n, _own))
